@@ -70,6 +70,10 @@ void PDU::copy_inner_pdu(const PDU& pdu) {
     if (pdu.inner_pdu()) {
         inner_pdu(pdu.inner_pdu()->clone());
     }
+    else {
+        // The source has no inner PDU: drop ours so the copy equals its source
+        inner_pdu(0);
+    }
 }
 
 void PDU::prepare_for_serialize() {
